@@ -181,10 +181,11 @@ func (g *fgen) callInner(in ssa.CallInstruction, st *state) []val {
 			g.oblige("nilrecv", g.siteLabel(pos, "call "+callee.Name()), fmt.Sprintf("(not (= %s 0))", r.t), pos)
 		}
 	}
-	if mc, ok := c.Value.(*ssa.MakeClosure); ok && fc == nil {
-		_ = mc
-	}
 	if fc != nil {
+		if mc, ok := c.Value.(*ssa.MakeClosure); ok {
+			g.curClosure = mc
+			defer func() { g.curClosure = nil }()
+		}
 		return g.applyContract(fc, callee, recv, args, st, pos, callee.Signature)
 	}
 	// no contract: inferred frame
@@ -275,6 +276,25 @@ func (g *fgen) applyContract(fc *funcContract, callee *ssa.Function, recv *val, 
 	}
 	pre := st.clone()
 	env := &cenv{g: g, st: pre, old: pre, vars: vars, pkg: pkg, nq: nq}
+	// a closure's contract names its captured variables: their cells, read in the state
+	// the clause is evaluated in
+	var capLocal func(s *state) func(string) (val, bool)
+	if mc := g.curClosure; mc != nil && callee != nil {
+		capLocal = func(s *state) func(string) (val, bool) {
+			return func(name string) (val, bool) {
+				for i, fv := range callee.FreeVars {
+					if fv.Name() == name && i < len(mc.Bindings) {
+						p := g.get(mc.Bindings[i])
+						et := fv.Type().Underlying().(*types.Pointer).Elem()
+						l := g.ptrLoc(p.t, et)
+						return val{g.load(s, l), et, g.sortOf(et)}, true
+					}
+				}
+				return val{}, false
+			}
+		}
+		env.local = capLocal(pre)
+	}
 	for _, c := range fc.requires {
 		t, err := env.safeBool(c)
 		if err != nil {
@@ -334,6 +354,9 @@ func (g *fgen) applyContract(fc *funcContract, callee *ssa.Function, recv *val, 
 		g.fact(g.curGuard, fmt.Sprintf("(= %s %s)", rs[0].t, pv.t))
 	}
 	post := &cenv{g: g, st: st, old: pre, vars: map[string]val{}, pkg: pkg, nq: nq}
+	if capLocal != nil {
+		post.local = capLocal(st)
+	}
 	for k, v := range vars {
 		post.vars[k] = v
 	}
@@ -362,6 +385,12 @@ func (g *fgen) applyContract(fc *funcContract, callee *ssa.Function, recv *val, 
 	for _, c := range fc.defines {
 		t, err := post.safeBool(c)
 		if err != nil {
+			if fc.trusted && (callee == nil || callee.Blocks == nil || g.w.isLibrary(callee)) {
+				// a ghost definition of a trusted (generic) library contract that does
+				// not type-check for this instantiation: the ghost stays havocked
+				g.assum["ghost definition of "+ckey+" not applicable here and dropped: "+c.src] = true
+				continue
+			}
 			panic(transErr(err.Error()))
 		}
 		g.fact(g.curGuard, t)
